@@ -7,6 +7,7 @@ import (
 	"go/token"
 	"go/types"
 	"sort"
+	"time"
 
 	"golang.org/x/tools/go/ssa"
 )
@@ -56,6 +57,35 @@ type Exec struct {
 	Conc    *ConcEnv
 	steps   int
 	optOverride map[string]string
+	AbstractMul bool
+	pool        *Pool
+	feasCalls   int
+	feasPruned  int
+}
+
+// Feasible asks the solver whether cond is satisfiable together with the assumptions collected so far.
+// Only a definite "unsat" prunes; anything else keeps the alternative (sound).
+func (ex *Exec) Feasible(cond *Term) bool {
+	if cond.IsFalse() {
+		return false
+	}
+	if ex.pool == nil {
+		return true
+	}
+	ex.feasCalls++
+	o := Obligation{Kind: "feas", Cond: cond}
+	prefix, asserts, _, _ := queryParts(ex, o)
+	s, err := ex.pool.Get("z3sat")
+	if err != nil {
+		return true
+	}
+	qr := s.Check(prefix, asserts, nil, 2*time.Second)
+	ex.pool.Put(s)
+	if qr.Status == "unsat" {
+		ex.feasPruned++
+		return false
+	}
+	return true
 }
 
 func NewExec(prog *ssa.Program, b Bounds) *Exec {
@@ -849,6 +879,16 @@ func (fr *Frame) binop(op token.Token, xt types.Type, x, y Value, yt types.Type,
 		case token.SUB:
 			return &VBV{ts.Sub(a, b)}
 		case token.MUL:
+			if ex.AbstractMul && a.W == 64 {
+				// multiplication by a constant as an uninterpreted function (sound for proving equalities;
+				// a counterexample under the abstraction is re-checked with real multiplication)
+				if a.IsConst() && !b.IsConst() {
+					return &VBV{ts.UF(fmt.Sprintf("mulc%d", a.Val), 64, b)}
+				}
+				if b.IsConst() && !a.IsConst() {
+					return &VBV{ts.UF(fmt.Sprintf("mulc%d", b.Val), 64, a)}
+				}
+			}
 			return &VBV{ts.Mul(a, b)}
 		case token.QUO, token.REM:
 			fr.panicIf(ts.Eq(b, ts.BV(0, b.W)), in, "integer divide by zero")
@@ -1341,7 +1381,7 @@ func (fr *Frame) mapContent(m *VMap) (slots []MapSlot) {
 	// Merged view of the map's slots across alternatives (usually exactly one).
 	ex := fr.ex
 	ts := ex.ts
-	if len(m.Alts) == 1 {
+	if len(m.Alts) == 1 && m.Alts[0].G.IsTrue() {
 		return fr.heapGet(m.Alts[0].Obj).(*VMapC).Slots
 	}
 	for _, a := range m.Alts {
@@ -1423,6 +1463,9 @@ func (fr *Frame) mapUpdate(m *VMap, mt *types.Map, key, val Value, in ssa.Instru
 		if !single {
 			fresh = ts.And(a.G, fresh)
 		}
+		if !fresh.IsFalse() && len(ns) >= 3 && !ex.Feasible(ts.And(fr.pc, fresh)) {
+			fresh = ts.False
+		}
 		if !fresh.IsFalse() {
 			ns = append(ns, MapSlot{fresh, key, val})
 		}
@@ -1497,13 +1540,38 @@ func (fr *Frame) rangeOp(i *ssa.Range) Value {
 	default:
 		panic(unsupported("Range on " + i.X.Type().String()))
 	}
-	return &VIter{o}
+	return &VIter{[]IterAlt{{ts.True, o}}}
 }
 
 func (fr *Frame) next(i *ssa.Next) Value {
 	ex := fr.ex
+	its := fr.eval(i.Iter).(*VIter)
+	if len(its.Alts) == 0 {
+		panic(unsupported("next on empty iterator"))
+	}
+	if len(its.Alts) > 1 {
+		// several possible iterators (an inner range re-created per outer iteration): advance each under its guard
+		var res Value
+		for k := len(its.Alts) - 1; k >= 0; k-- {
+			al := its.Alts[k]
+			old := fr.heap[al.Obj]
+			r := fr.nextOne(al.Obj)
+			fr.heap[al.Obj] = ex.merge(al.G, fr.heap[al.Obj], old)
+			if res == nil {
+				res = r
+			} else {
+				res = ex.merge(al.G, r, res)
+			}
+		}
+		return res
+	}
+	return fr.nextOne(its.Alts[0].Obj)
+}
+
+func (fr *Frame) nextOne(itObj *Object) Value {
+	ex := fr.ex
 	ts := ex.ts
-	it := fr.eval(i.Iter).(*VIter)
+	it := struct{ Obj *Object }{itObj}
 	c := fr.heap[it.Obj].(*VIterC)
 	if c.Kind == 0 {
 		ok := ts.Ult(c.Pos, c.Str.Len)
